@@ -23,7 +23,7 @@ ASSUMPTIONS = ["samples are representable in the key dtype (a wider-dtype sample
 
 def absent_candidates(keys, dt, mod_eff):
     lo, hi = gen.int_range(dt)
-    lo, hi = max(lo, -2**62), min(hi, 2**62)
+    lo, hi = max(lo, -2**63), min(hi, 2**64 - 1)
     ks = set(keys)
     used = {k % mod_eff for k in keys}
     same, empty = [], []
@@ -128,7 +128,13 @@ class Harness:
             self.labels.append("mixed-batch")
         if any(x not in self.m for x in s):
             self.saw_absent = True
-        arg = list(s) if as_ == "list" and s else np.array(s, dtype=self.dt)
+        if as_ in ("sorted", "one-descent") and s:
+            s = sorted(s)
+            if as_ == "one-descent" and len(s) >= 2:
+                k = 1 + rep % (len(s) - 1) if len(s) > 2 else 1
+                s = s[k:] + s[:k]          # ascending except for one descent from the largest to the smallest sample
+            self.labels.append("batch:" + as_)
+        arg = list(s) if as_ == "list" and s and all(abs(x) < 2**63 for x in s) else np.array(s, dtype=self.dt)
         r = lib(self.c.count, arg)
         if not r.ok:
             raise Violation("count:refused", samples=s, got=r.brief())
@@ -189,7 +195,7 @@ def machine(tier, sink):
             self.do(["init", dt, keys, mod, ikind, init])
 
         @rule(spec=st.one_of(SPEC, SPEC_ABSENT, SPEC_KEYS, st.just([])), rep=st.sampled_from([0, 0, 0, 3, 50]),
-              as_=st.sampled_from(["array", "array", "list"]))
+              as_=st.sampled_from(["array", "array", "list", "sorted", "one-descent"]))
         def count(self, spec, rep, as_):
             self.do(["count", spec, rep, as_])
 
